@@ -1,6 +1,7 @@
 (** C13 — property theorems only.  Each is closed by [exact] of a lemma in Proofs.v and
     followed by [Print Assumptions]. *)
-From V Require Import Base.Util C20.Model C13.Model C13.Spec C13.Proofs.
+From V Require Import Base.Util C20.Model C13.Model C13.Spec C13.Proofs C13.ProofsExt C13.ProofsReach C13.ProofsRaw.
+From Coq Require Import Permutation.
 
 Theorem C13_imports_terminate :
   forall st root_path root, resolve_imports st root_path root <> inl OutOfFuel.
@@ -111,3 +112,98 @@ Theorem C13_no_panic_full_refuted :
   ~ imports_no_panic_full.
 Proof. exact no_panic_full_refuted. Qed.
 Print Assumptions C13_no_panic_full_refuted.
+
+Theorem C13_ext_char :
+  forall doc,
+  match resolve_extensions doc with
+  | inr f =>
+      fdefs f = item_defs doc
+      /\ NoDup (map ipath (fimports f))
+      /\ (forall i, In i (fimports f) ->
+            has_line (ipath i) doc = true
+            /\ merge_targets (Specific []) (group (ipath i) doc) = Some (itargets i))
+      /\ (forall p, has_line p doc = true -> exists i, In i (fimports f) /\ ipath i = p)
+  | inl _ => exists p, has_line p doc = true /\ merge_targets (Specific []) (group p doc) = None
+  end.
+Proof. exact ext_char. Qed.
+Print Assumptions C13_ext_char.
+
+Theorem C13_ext_requests :
+  forall doc f i,
+  resolve_extensions doc = inr f -> In i (fimports f) ->
+  match itargets i with
+  | Wildcard => group (ipath i) doc = [TWild]
+  | Specific ids => no_wild (group (ipath i) doc) = true /\ ids = target_ids (group (ipath i) doc)
+  end.
+Proof. exact ext_requests. Qed.
+Print Assumptions C13_ext_requests.
+
+Theorem C13_ext_error_iff :
+  forall doc,
+  (exists e, resolve_extensions doc = inl e) <->
+  (exists p, has_line p doc = true /\ no_wild (group p doc) = false /\ group p doc <> [TWild]).
+Proof. exact ext_error_iff. Qed.
+Print Assumptions C13_ext_error_iff.
+
+Theorem C13_import_lines_irrelevant :
+  forall st st' root_path root root' ks ds,
+  store_equiv st st' -> file_equiv root root' ->
+  exact_guard_b st root_path root ks = true ->
+  names_guard_b st ks (all_lines st root_path root ks) = true ->
+  resolve_imports st root_path root = inr ds ->
+  exists ds', resolve_imports st' root_path root' = inr ds' /\ (forall d, In d ds <-> In d ds') /\ NoDup ds'.
+Proof. exact import_lines_irrelevant. Qed.
+Print Assumptions C13_import_lines_irrelevant.
+
+Theorem C13_ext_perm :
+  forall doc doc' f,
+  Permutation doc doc' -> item_defs doc = item_defs doc' ->
+  resolve_extensions doc = inr f ->
+  exists f', resolve_extensions doc' = inr f' /\ file_equiv f f'.
+Proof. exact ext_perm. Qed.
+Print Assumptions C13_ext_perm.
+
+Theorem C13_reach_closed :
+  forall st root_path root, closed_b st root_path root (reach_b st root_path root) = true.
+Proof. exact reach_b_closed. Qed.
+Print Assumptions C13_reach_closed.
+
+Theorem C13_imports_exact_reach :
+  forall st root_path root ds,
+  guard_exact st root_path root = true ->
+  resolve_imports st root_path root = inr ds ->
+  (forall d, In d ds <-> Closure st root_path root d) /\ NoDup ds.
+Proof. exact imports_exact_reach. Qed.
+Print Assumptions C13_imports_exact_reach.
+
+Theorem C13_error_iff_reach :
+  forall st root_path root,
+  agree_b st (all_lines st root_path root (reach_b st root_path root)) = true ->
+  guard_names st root_path root = true ->
+  (BadLine st root_path (fimports root) <->
+   exists e, resolve_imports st root_path root = inl e /\ positioned e = true).
+Proof. exact imports_error_iff_reach. Qed.
+Print Assumptions C13_error_iff_reach.
+
+Theorem C13_no_panic_reach :
+  forall st root_path root,
+  guard_names st root_path root = true ->
+  resolve_imports st root_path root <> inl PanicMissingTarget.
+Proof. exact imports_no_panic_reach. Qed.
+Print Assumptions C13_no_panic_reach.
+
+Theorem C13_closure_raw :
+  forall ds st, StoreOf ds st ->
+  forall root_path root_items root, resolve_extensions root_items = inr root ->
+  forall d, RawClosure ds root_path root_items d <-> Closure st root_path root d.
+Proof. exact closure_raw. Qed.
+Print Assumptions C13_closure_raw.
+
+Theorem C13_imports_exact_raw :
+  forall ds st root_path root_items root out,
+  StoreOf ds st -> resolve_extensions root_items = inr root ->
+  guard_exact st root_path root = true ->
+  resolve_imports st root_path root = inr out ->
+  (forall d, In d out <-> RawClosure ds root_path root_items d) /\ NoDup out.
+Proof. exact imports_exact_raw. Qed.
+Print Assumptions C13_imports_exact_raw.
